@@ -23,6 +23,8 @@ CONSTRUCTS = {
 SIG_CONSTRUCTS = {
     "list_ann_param": "@guppy.declare\ndef lp(xs: list[int]) -> None: ...\n\n",
     "list_ann_ret": "@guppy.declare\ndef lr() -> list[int]: ...\n\n",
+    "list_ann_field": "@guppy.struct\nclass SL:\n    xs: list[int]\n    n: int\n\n@guppy.declare\ndef lf(s: SL) -> int: ...\n\n",
+    "list_ann_nested_sig": "@guppy\ndef lns(a: int) -> int:\n    def inner(xs: list[int]) -> int:\n        return 1\n    return a\n\n",
 }
 UNGATED = {"none"}
 CONTEXTS = ("top", "in_if", "in_while", "in_for", "in_nested_fn", "in_callee", "in_method")
@@ -40,7 +42,8 @@ def program(kind: str, ctx: str) -> str:
     if kind in SIG_CONSTRUCTS:
         src += SIG_CONSTRUCTS[kind]
         # the declared function is only *referenced* from the context
-        body = ["fref = " + ("lp" if kind == "list_ann_param" else "lr")]
+        body = ["fref = " + {"list_ann_param": "lp", "list_ann_ret": "lr",
+                             "list_ann_field": "lf", "list_ann_nested_sig": "lns"}[kind]]
         helpers = ""
     else:
         helpers, body = CONSTRUCTS[kind]
